@@ -555,7 +555,17 @@ func (g *GoFakeS3) headObject(
 		return err
 	}
 
-	obj, err := g.storage.HeadObject(bucket, object)
+	var obj *Object
+	var err error
+	if versionID == "" {
+		obj, err = g.storage.HeadObject(bucket, object)
+	} else {
+		// HEAD ?versionId= must describe that version, not the current one:
+		if g.versioned == nil {
+			return ErrNotImplemented
+		}
+		obj, err = g.versioned.HeadObjectVersion(bucket, object, versionID)
+	}
 	if err != nil {
 		return err
 	}
